@@ -305,10 +305,13 @@ LOOP:
 				// compaction) since the HW position was resolved. Resolve it
 				// again on the new segment, otherwise the limit below is never
 				// applied and messages above the HW are returned.
-				if hwIdx, hwPos, hwErr := getHWPos(segments, r.hw); hwErr == nil {
-					r.hwSeg = segments[hwIdx]
-					r.hwPos = hwPos
+				hwIdx, hwPos, hwErr := getHWPos(segments, r.hw)
+				if hwErr != nil {
+					err = hwErr
+					break
 				}
+				r.hwSeg = segments[hwIdx]
+				r.hwPos = hwPos
 			}
 			continue
 		}
